@@ -337,6 +337,19 @@ theorem C12_s5 (ds : List Bytes) (cut : Nat) (chunks : List Bytes) (tail : Tail)
     rw [hfl, sendPacket_wire, parseS5_cut ds hwf cut _ (Nat.lt_succ_self _)]
     simp
 
+/-- **`SendPacket` has one path for every payload size**: whatever the length (0 … 65535 — no small-packet /
+large-packet distinction, no scratch buffer the payload could be cut to), the bytes put on the tunnel for a
+datagram are its 2-byte big-endian length followed by ALL its bytes: exactly `2 + |d|` of them, and the next
+`ReceivePacket` gets `d` back. In the source: one `make` for the prefix and two `writer.Write` calls, nothing else
+(`ReceivePacket`: two `make` + two `io.ReadFull`) — pinned by skeleton. -/
+theorem C12_s5_send_every_size (d : Bytes) (hd : d.length ≤ 65535) (rest : Bytes) (f : Nat) :
+    (sendPacket d).flatten = encode1 d ∧ ((sendPacket d).flatten).length = 2 + d.length ∧
+    parseS5 (f + 1) ((sendPacket d).flatten ++ rest) = ⟨d :: (parseS5 f rest).pk, (parseS5 f rest).stop⟩ ∧
+    Gen.Skel.udpTunnelConn_SendPacket = ["GetWriter", "make", "writer.Write", "writer.Write"] ∧
+    Gen.Skel.udpTunnelConn_ReceivePacket = ["GetReader", "make", "io.ReadFull", "make", "io.ReadFull"] := by
+  have h1 : (sendPacket d).flatten = encode1 d := by simp [sendPacket, encode1]
+  refine ⟨h1, by rw [h1, encode1_length], by rw [h1]; exact parseS5_encode1 f d rest hd, by decide, by decide⟩
+
 /-- **Read-partition independence**: two partitions of the same bytes give the same datagrams and the same
 ending — one record per read, records split across reads, or several records in one read. -/
 theorem C12_s5_chunk_independent (f : Nat) (s₁ s₂ : Src) (h : s₁.flat = s₂.flat) : recvAll f s₁ = recvAll f s₂ := by
@@ -453,6 +466,14 @@ example :
 /-- 70 datagrams of one pass go out as batches of 32, 32 and 6. -/
 example : ((flushBatches batchSize (List.replicate 70 [1])).map List.length) = [32, 32, 6] := by
   simp [flushBatches, batchSize]
+
+/-- A 2048-byte datagram followed by a short one, coalesced into one read: 2050 bytes go out for the first, both
+come back (sizes around any scratch-buffer limit are ordinary sizes). -/
+example (d : Bytes) (h : d.length = 2048) :
+    ((sendPacket d).flatten).length = 2050 ∧
+    recvAll ((encodeAll [d, [9]]).length + 1) ⟨[encodeAll [d, [9]]], .eof⟩ = ⟨[d, [9]], .len⟩ :=
+  ⟨by rw [(C12_s5_send_every_size d (by omega) [] 0).2.1, h],
+   C12_s5_roundtrip [d, [9]] (by simp [wfS5]; omega) _ .eof (by simp)⟩
 
 /-- `holdsUdp` is not trivially true: a relay that dropped the datagram before the cut fails it. -/
 example : holdsUdp ⟨[], .hold, [[97]], 3, [], .eof, false⟩ ⟨true, [], [], 0, false, false, false, 0, 0⟩ = false := by decide
